@@ -1115,11 +1115,18 @@ func (sdb *DbSqlite) userCheck(email, password string) (data.Nodes, error) {
 		}
 
 		for _, e := range edges {
-			// make sure edge is not tombstone
+			// skip edges that are tombstoned; the node may still be
+			// connected through one of its other edges
+			deleted := false
 			for _, p := range e.Points {
 				if p.Type == data.PointTypeTombstone && p.Value != 0 {
-					return false, nil
+					deleted = true
+					break
 				}
+			}
+
+			if deleted {
+				continue
 			}
 
 			if e.Up == "root" {
